@@ -8,7 +8,8 @@ use serde_json::{json, Value};
 
 const RULE: &str = "K fresh processes (quick 8, thorough 48) each evaluate the same list of inputs through asca::run / get_trace_string: (A) `[] > [±F]` for all 26 features on every k-th base / base+1-diacritic spelling (forces the renderer's candidate search and its tie-breaks), (B) the same through `+` romanisers (nearest-base-phone search), (C) harvested rules x harvested words, (D) inputs that return errors, (E) printed traces; every batch is run twice in a row and once with the words in reverse order. A violation is an input whose result differs between two processes, between two successive calls, or with the word order. Non-trivial = inputs whose rendering is not a bare base phone (i.e. went through the candidate search); distinct = distinct inputs.";
 
-pub struct Batch { pub groups: Vec<RuleGroup>, pub words: Vec<String>, pub from: Vec<String>, pub trace: bool, pub tag: &'static str }
+/// `into`: deromanisers (alias_into) of the call
+pub struct Batch { pub groups: Vec<RuleGroup>, pub words: Vec<String>, pub from: Vec<String>, pub into: Vec<String>, pub trace: bool, pub tag: &'static str }
 
 pub fn batches(ctx: &Ctx) -> Vec<Batch> {
     let mut v = Vec::new();
@@ -16,18 +17,18 @@ pub fn batches(ctx: &Ctx) -> Vec<Batch> {
     let kq = ctx.pick(6, 2) as usize;
     let texts: Vec<String> = segs.iter().enumerate().filter(|(i, _)| (i + ctx.seed as usize) % kq == 0).map(|(_, s)| s.0.clone()).collect();
     for (name, _, _) in crate::c04::F { for sign in ['+', '-'] {
-        v.push(Batch { groups: vec![RuleGroup::from_rules(vec![format!("[] > [{sign}{name}]")])], words: texts.clone(), from: vec![], trace: false, tag: "A" });
+        v.push(Batch { groups: vec![RuleGroup::from_rules(vec![format!("[] > [{sign}{name}]")])], words: texts.clone(), from: vec![], into: vec![], trace: false, tag: "A" });
     } }
     let texts_b: Vec<String> = texts.iter().step_by(3).cloned().collect();
     for (i, (name, _, _)) in crate::c04::F.iter().enumerate() {
         let from = match i % 3 { 0 => vec!["V > +@{acute}".to_string(), "C > +@{underdot}".to_string()], 1 => vec!["[+voice] > +x".to_string(), "[-voice] > +@{macron}".to_string(), "$ > *".to_string()], _ => vec!["[+son] > +@{tilde}".to_string()] };
-        v.push(Batch { groups: vec![RuleGroup::from_rules(vec![format!("[] > [{}{name}]", if i % 2 == 0 { '+' } else { '-' })])], words: texts_b.clone(), from, trace: false, tag: "B" });
+        v.push(Batch { groups: vec![RuleGroup::from_rules(vec![format!("[] > [{}{name}]", if i % 2 == 0 { '+' } else { '-' })])], words: texts_b.clone(), from, into: vec![], trace: false, tag: "B" });
     }
     let (rules, words) = harvest(&ctx.repo);
     let kc = ctx.pick(5, 1) as usize;
-    for (i, r) in rules.iter().enumerate() { if (i + ctx.seed as usize) % kc != 0 { continue } v.push(Batch { groups: vec![RuleGroup::from_rules(vec![r.clone()])], words: words.clone(), from: vec![], trace: false, tag: "C" }); }
-    for bad in ["a > ", "[+foo] > a", "a > e / _ _", "% > *", "* > a", "a > [+place]", "{a} > {e, o}"] { v.push(Batch { groups: vec![RuleGroup::from_rules(vec![bad.to_string()])], words: vec!["pa.ta".into(), "a".into(), "ˈ".into()], from: vec![], trace: false, tag: "D" }); }
-    for (i, r) in rules.iter().enumerate().take(60) { v.push(Batch { groups: vec![RuleGroup::from(format!("g{i}"), vec![r.clone()], String::new())], words: words.iter().skip(i).step_by(37).cloned().collect(), from: vec![], trace: true, tag: "E" }); }
+    for (i, r) in rules.iter().enumerate() { if (i + ctx.seed as usize) % kc != 0 { continue } v.push(Batch { groups: vec![RuleGroup::from_rules(vec![r.clone()])], words: words.clone(), from: vec![], into: vec![], trace: false, tag: "C" }); }
+    for bad in ["a > ", "[+foo] > a", "a > e / _ _", "% > *", "* > a", "a > [+place]", "{a} > {e, o}"] { v.push(Batch { groups: vec![RuleGroup::from_rules(vec![bad.to_string()])], words: vec!["pa.ta".into(), "a".into(), "ˈ".into()], from: vec![], into: vec![], trace: false, tag: "D" }); }
+    for (i, r) in rules.iter().enumerate().take(60) { v.push(Batch { groups: vec![RuleGroup::from(format!("g{i}"), vec![r.clone()], String::new())], words: words.iter().skip(i).step_by(37).cloned().collect(), from: vec![], into: vec![], trace: true, tag: "E" }); }
     // (F) state that could survive from one word to the next inside a call: rules whose input binds an alpha or a variable in its
     //     first element and uses it in a later one (also across `$`, in the context, in metathesis), on lists of short words over a
     //     small inventory - so that many words END in a partial match and the next one BEGINS with a match of the other value
@@ -48,7 +49,7 @@ pub fn batches(ctx: &Ctx) -> Vec<Batch> {
             _ => plain(&rand_rule(&mut r, &RuleCfg { max_side: 2, ..RuleCfg::default() })),
         };
         let words: Vec<String> = (0..r.range(4, 9)).map(|_| { let n = r.range(1, 5); let mut w = String::new(); let mut last = ""; for j in 0..n { let x = *r.pick(&inv); if x == last { continue } if j > 0 && r.chance(1, 3) { w.push('.') } w += x; last = x; } w }).collect();
-        v.push(Batch { groups: vec![RuleGroup::from_rules(vec![rule])], words, from: vec![], trace: false, tag: "F" });
+        v.push(Batch { groups: vec![RuleGroup::from_rules(vec![rule])], words, from: vec![], into: vec![], trace: false, tag: "F" });
     }
     // (G) the same failing rule text at different (group, line) positions, in separate batches: anything remembered about a rule
     //     from an earlier call (a parse cache, a position) shows in the error value - provided processes do not all share one history,
@@ -56,7 +57,15 @@ pub fn batches(ctx: &Ctx) -> Vec<Batch> {
     for (bad, w) in [("a > [Avoice]", "pa.ta"), ("a > [+place]", "pa.ta"), ("{p, t} > {b}", "pa.ta"), ("% > a", "pa.ta"), ("a > 1", "pa.ta"), ("V > [-long, +overlong]", "pa.ta"), ("a > *", "a"), ("p a > & / _ :{ _t, _k }: ", "pa.ta")] {
         let g = |rules: &[&str]| RuleGroup::from_rules(rules.iter().map(|x| x.to_string()).collect());
         for groups in [vec![g(&[bad])], vec![g(&["p > b", bad])], vec![g(&["p > b"]), g(&[bad])], vec![g(&[";; note", "", bad]), g(&["t > d"])], vec![g(&["k > g"]), g(&[]), g(&["p > b", "t > d", bad])]] {
-            v.push(Batch { groups, words: vec![w.to_string(), "ki".to_string()], from: vec![], trace: false, tag: "G" });
+            v.push(Batch { groups, words: vec![w.to_string(), "ki".to_string()], from: vec![], into: vec![], trace: false, tag: "G" });
+        }
+    }
+    // (H) the same words with and without deromanisers, and under two different deromaniser lists: what an earlier call made of a
+    //     spelling must not colour a later one (again it is the alternating batch order that gives the processes different histories)
+    for (i, rule) in ["a > e", "s > z / V_V", "[] > [+voice]"].iter().enumerate() {
+        let words: Vec<String> = ["sha.ta", "pasha", "ka.sha.sh", "asa", "shsh"].iter().map(|x| x.to_string()).collect();
+        for into in [vec![], vec!["sh > ʃ".to_string()], vec!["sh > x".to_string(), "a > ɑ".to_string()]] {
+            v.push(Batch { groups: vec![RuleGroup::from(format!("h{i}"), vec![rule.to_string()], String::new())], words: words.clone(), from: vec![], into, trace: i == 2, tag: "H" });
         }
     }
     v
@@ -64,11 +73,11 @@ pub fn batches(ctx: &Ctx) -> Vec<Batch> {
 
 fn eval(b: &Batch, words: &[String]) -> Vec<String> {
     if b.trace {
-        words.iter().map(|w| match crate::isol::guard(crate::isol::DEFAULT_BUDGET, || asca::get_trace_string(&b.groups, w.clone(), &[])) { crate::isol::Outcome::Done(Ok(v)) => v.join(" | "), crate::isol::Outcome::Done(Err(e)) => format!("Err({})", err_kind(&e)), o => format!("Abort({})", o.abort_sig().unwrap_or_default()) }).collect()
+        words.iter().map(|w| match crate::isol::guard(crate::isol::DEFAULT_BUDGET, || asca::get_trace_string(&b.groups, w.clone(), &b.into)) { crate::isol::Outcome::Done(Ok(v)) => v.join(" | "), crate::isol::Outcome::Done(Err(e)) => format!("Err({})", err_kind(&e)), o => format!("Abort({})", o.abort_sig().unwrap_or_default()) }).collect()
     } else {
         // one call per word so that one failing word does not hide the others ...
         // (the error VALUE, positions included: for identical arguments it must be identical too)
-        let each: Vec<String> = words.iter().map(|w| match crate::isol::guard(crate::isol::DEFAULT_BUDGET, || asca::run(&b.groups, &[w.clone()], &[], &b.from)) {
+        let each: Vec<String> = words.iter().map(|w| match crate::isol::guard(crate::isol::DEFAULT_BUDGET, || asca::run(&b.groups, &[w.clone()], &b.into, &b.from)) {
             crate::isol::Outcome::Done(Ok(v)) => v[0].clone(),
             crate::isol::Outcome::Done(Err(e)) => format!("Err({e:?})"),
             o => format!("Abort({})", o.abort_sig().unwrap_or_default()),
@@ -96,8 +105,8 @@ pub fn child(ctx: &Ctx, out: &str) {
         // ... and one call on the whole list (when every word succeeds) must agree with the per-word calls
         if !b.trace && r1.iter().all(|x| !x.starts_with("Err(") && !x.starts_with("Abort(")) {
             // and the list in the other order, in one call, must give the same words in the other order
-            if let (Ok(whole), Ok(mut back)) = (run_pub(&b.groups, &b.words, &[], &b.from), run_pub(&b.groups, &rev, &[], &b.from)) { back.reverse(); if whole != back { let i = (0..whole.len().min(back.len())).find(|i| whole[*i] != back[*i]).unwrap_or(0); order_diff.push(json!({"batch": bi, "word": b.words[i], "forward": whole[i], "reversed": back[i], "one_call_per_order": true})); } }
-            if let Ok(whole) = run_pub(&b.groups, &b.words, &[], &b.from) { if whole != r1 { let i = (0..r1.len()).find(|i| r1[*i] != whole[*i]).unwrap_or(0); list_diff.push(json!({"batch": bi, "word": b.words[i], "alone": r1[i], "in_list": whole.get(i)})); } }
+            if let (Ok(whole), Ok(mut back)) = (run_pub(&b.groups, &b.words, &b.into, &b.from), run_pub(&b.groups, &rev, &b.into, &b.from)) { back.reverse(); if whole != back { let i = (0..whole.len().min(back.len())).find(|i| whole[*i] != back[*i]).unwrap_or(0); order_diff.push(json!({"batch": bi, "word": b.words[i], "forward": whole[i], "reversed": back[i], "one_call_per_order": true})); } }
+            if let Ok(whole) = run_pub(&b.groups, &b.words, &b.into, &b.from) { if whole != r1 { let i = (0..r1.len()).find(|i| r1[*i] != whole[*i]).unwrap_or(0); list_diff.push(json!({"batch": bi, "word": b.words[i], "alone": r1[i], "in_list": whole.get(i)})); } }
         }
         results[bi] = r1;
     }
@@ -174,13 +183,13 @@ pub fn replay(ctx: &Ctx, v: &Value) -> Report {
     if let Some(i) = ctx.args.iter().position(|a| a == "--c01-one") {
         // child of a replay: print the result of the one input
         let c: Value = serde_json::from_str(&ctx.args[i + 1]).unwrap_or(Value::Null);
-        let b = Batch { groups: vec![RuleGroup::from(String::from("g"), vec![jstr(&c, "rule")], String::new())], words: vec![jstr(&c, "word")], from: jstrs(&c, "from"), trace: c["trace"].as_bool().unwrap_or(false), tag: "R" };
+        let b = Batch { groups: vec![RuleGroup::from(String::from("g"), vec![jstr(&c, "rule")], String::new())], words: vec![jstr(&c, "word")], from: jstrs(&c, "from"), into: vec![], trace: c["trace"].as_bool().unwrap_or(false), tag: "R" };
         println!("{}", eval(&b, &b.words)[0]);
         return rep;
     }
     if v["words"].is_array() {
         // an in-process witness (second call / word order / list vs single calls): the same comparisons on its word list
-        let b = Batch { groups: vec![RuleGroup::from(String::from("g"), vec![jstr(v, "rule")], String::new())], words: jstrs(v, "words"), from: jstrs(v, "from"), trace: v["trace"].as_bool().unwrap_or(false), tag: "R" };
+        let b = Batch { groups: vec![RuleGroup::from(String::from("g"), vec![jstr(v, "rule")], String::new())], words: jstrs(v, "words"), from: jstrs(v, "from"), into: vec![], trace: v["trace"].as_bool().unwrap_or(false), tag: "R" };
         rep.eval(4);
         let (r1, r2) = (eval(&b, &b.words), eval(&b, &b.words));
         if r1 != r2 { rep.violation("second-call-differs".into(), || json!({"case": v, "first": r1, "second": r2})); return rep }
@@ -188,7 +197,7 @@ pub fn replay(ctx: &Ctx, v: &Value) -> Report {
         let mut r3 = eval(&b, &rev); r3.reverse();
         if r1 != r3 { rep.violation("word-order-changes-result".into(), || json!({"case": v, "forward": r1, "reversed": r3})); return rep }
         if !b.trace && r1.iter().all(|x| !x.starts_with("Err(") && !x.starts_with("Abort(")) {
-            if let (Ok(whole), Ok(mut back)) = (run_pub(&b.groups, &b.words, &[], &b.from), run_pub(&b.groups, &rev, &[], &b.from)) {
+            if let (Ok(whole), Ok(mut back)) = (run_pub(&b.groups, &b.words, &b.into, &b.from), run_pub(&b.groups, &rev, &b.into, &b.from)) {
                 back.reverse();
                 if whole != back { rep.violation("word-order-changes-result".into(), || json!({"case": v, "forward": whole, "reversed": back})); return rep }
                 if whole != r1 { rep.violation("list-call-differs-from-single-calls".into(), || json!({"case": v, "alone": r1, "in_list": whole})); return rep }
